@@ -883,4 +883,774 @@ theorem tabs_eq_spaces (c : Nat) (p q r : Bytes) (hp : p.all isIndent = true) (h
   refine ⟨e1, e2, fun width => ?_⟩
   rw [indentPosition_fails_iff, indentPosition_fails_iff, e1, e2]
 
+/-! ### trimming -/
+
+theorem takeWhile_all_of {α} (p : α → Bool) (l : List α) : ∀ x ∈ l.takeWhile p, p x = true :=
+  fun _ hx => mem_takeWhile_imp hx
+
+/-- the last `trimRightSpaceLength l` bytes are white space -/
+theorem drop_trailing_space (l : Bytes) : ∀ y ∈ l.drop (l.length - trimRightSpaceLength l), isSpace y = true := by
+  intro y hy
+  have h1 : (l.drop (l.length - trimRightSpaceLength l)).reverse = l.reverse.takeWhile isSpace := by
+    rw [← List.take_reverse]; exact take_len_takeWhile isSpace l.reverse
+  have : y ∈ l.reverse.takeWhile isSpace := by rw [← h1]; simpa using hy
+  exact mem_takeWhile_imp this
+
+theorem trimRight_le (l : Bytes) : trimRightSpaceLength l ≤ l.length := by
+  have := (List.takeWhile_sublist (p := isSpace) (l := l.reverse)).length_le
+  simpa [trimRightSpaceLength] using this
+
+theorem trimLeft_le (l : Bytes) : trimLeftSpaceLength l ≤ l.length :=
+  (List.takeWhile_sublist _).length_le
+
+/-- the first `trimLeftSpaceLength l` bytes are white space -/
+theorem take_leading_space (l : Bytes) : ∀ y ∈ l.take (trimLeftSpaceLength l), isSpace y = true := by
+  intro y hy
+  rw [trimLeftSpaceLength, take_len_takeWhile] at hy
+  exact mem_takeWhile_imp hy
+
+/-- a non-space byte is in `l` iff it is in the trimmed middle of `l` -/
+theorem mem_trimmed (l : Bytes) (x : UInt8) (hx : isSpace x = false) :
+    x ∈ (l.drop (trimLeftSpaceLength l)).take (l.length - trimRightSpaceLength l - trimLeftSpaceLength l) ↔ x ∈ l := by
+  constructor
+  · intro h; exact List.mem_of_mem_drop (List.mem_of_mem_take h)
+  · intro h
+    rw [← List.take_append_drop (trimLeftSpaceLength l) l, List.mem_append] at h
+    rcases h with h | h
+    · have := take_leading_space l x h; simp [hx] at this
+    · rw [← List.take_append_drop (l.length - trimRightSpaceLength l - trimLeftSpaceLength l)
+        (l.drop (trimLeftSpaceLength l)), List.mem_append] at h
+      rcases h with h | h
+      · exact h
+      · rw [List.drop_drop] at h
+        have hsub : (l.drop (trimLeftSpaceLength l + (l.length - trimRightSpaceLength l - trimLeftSpaceLength l))).Sublist
+            (l.drop (l.length - trimRightSpaceLength l)) := List.drop_sublist_drop_left l (by omega)
+        have := drop_trailing_space l x (hsub.subset h)
+        simp [hx] at this
+
+/-- when the two trims cover the whole string, it is all white space -/
+theorem all_space_of_trims (l : Bytes) (h : l.length ≤ trimLeftSpaceLength l + trimRightSpaceLength l) :
+    ∀ y ∈ l, isSpace y = true := by
+  intro y hy
+  rw [← List.take_append_drop (trimLeftSpaceLength l) l, List.mem_append] at hy
+  rcases hy with hy | hy
+  · exact take_leading_space l y hy
+  · have hsub : (l.drop (trimLeftSpaceLength l)).Sublist (l.drop (l.length - trimRightSpaceLength l)) :=
+      List.drop_sublist_drop_left l (by omega)
+    exact drop_trailing_space l y (hsub.subset hy)
+
+/-! ### opening code fence -/
+
+/-- for a backtick fence whose run ended at `i`: the `return nil` fires iff the rest of the line has a backtick -/
+theorem fenceInfoBad_backtick (line : Bytes) (i : Nat) (hh : (line.drop i).head? ≠ some 96) :
+    fenceInfoBad 96 line i = true ↔ (96 : UInt8) ∈ line.drop i := by
+  have hns : isSpace (96 : UInt8) = false := by decide
+  unfold fenceInfoBad
+  simp only [beq_self_eq_true, Bool.and_true, Bool.and_eq_true, decide_eq_true_eq, List.contains_eq_mem,
+    decide_eq_true_eq]
+  constructor
+  · rintro ⟨_, hmem⟩
+    exact (mem_trimmed _ 96 hns).mp hmem
+  · intro hmem
+    have hlen : (line.drop i).length = line.length - i := List.length_drop
+    by_cases h1 : i + 1 < line.length
+    · by_cases h2 : trimLeftSpaceLength (line.drop i) + trimRightSpaceLength (line.drop i) < (line.drop i).length
+      · exact ⟨⟨h1, h2⟩, (mem_trimmed _ 96 hns).mpr hmem⟩
+      · have := all_space_of_trims (line.drop i) (by omega) 96 hmem
+        simp [hns] at this
+    · -- at most one byte is left, and it is not a backtick
+      exfalso
+      cases hd : line.drop i with
+      | nil => rw [hd] at hmem; simp at hmem
+      | cons d t =>
+        rw [hd] at hmem hh hlen
+        have : t = [] := by
+          cases t with
+          | nil => rfl
+          | cons _ _ => simp at hlen; omega
+        subst this
+        simp at hmem hh
+        exact hh hmem.symm
+
+theorem fenceInfoBad_tilde (c : UInt8) (line : Bytes) (i : Nat) (hc : c ≠ 96) : fenceInfoBad c line i = false := by
+  simp [fenceInfoBad, hc]
+
+theorem fenceOpen_iff (line : Bytes) (pos : Nat) (c : UInt8) (n : Nat) :
+    (∃ info, fenceOpen line pos = .ok (some { char := c, indent := pos, length := n, info := info })) ↔
+      (c = 96 ∨ c = 126) ∧ 3 ≤ n ∧
+      ∃ rest, line.drop pos = List.replicate n c ++ rest ∧ rest.head? ≠ some c ∧ (c = 96 → (96 : UInt8) ∉ rest) := by
+  constructor
+  · rintro ⟨info, h⟩
+    unfold fenceOpen at h
+    cases hget : line[pos]? with
+    | none => simp [hget] at h
+    | some c0 =>
+      simp only [hget] at h
+      by_cases hc0 : (c0 != 96 && c0 != 126) = true
+      · simp [hc0] at h
+      · simp only [hc0, Bool.false_eq_true, if_false] at h
+        by_cases hn : ((line.drop pos).takeWhile (· == c0)).length < 3
+        · simp [hn] at h
+        · simp only [hn, if_false] at h
+          by_cases hbad : fenceInfoBad c0 line (pos + ((line.drop pos).takeWhile (· == c0)).length) = true
+          · simp [hbad] at h
+          · simp only [hbad, Bool.false_eq_true, if_false] at h
+            injection h with h; injection h with h; injection h with hc _ hlen _
+            subst hc; subst hlen
+            obtain ⟨hsplit, hhead⟩ := run_split c0 (line.drop pos)
+            have hc' : c0 = 96 ∨ c0 = 126 := by
+              simp only [Bool.and_eq_true, bne_iff_ne, ne_eq] at hc0
+              by_cases h96 : c0 = 96
+              · exact Or.inl h96
+              · by_cases h126 : c0 = 126
+                · exact Or.inr h126
+                · exact absurd ⟨h96, h126⟩ hc0
+            refine ⟨hc', by omega, _, hsplit, hhead, ?_⟩
+            intro h96; subst h96
+            have hdrop : line.drop (pos + ((line.drop pos).takeWhile (· == 96)).length) = (line.drop pos).dropWhile (· == 96) := by
+              rw [← List.drop_drop, drop_len_takeWhile]
+            have := fenceInfoBad_backtick line (pos + ((line.drop pos).takeWhile (· == 96)).length) (by rw [hdrop]; exact hhead)
+            rw [hdrop] at this
+            intro hmem
+            exact hbad (this.mpr hmem)
+  · rintro ⟨hc, hn, rest, hrest, hhead, h96⟩
+    have hrun : ((line.drop pos).takeWhile (· == c)).length = n := by rw [hrest]; exact run_length c n rest hhead
+    have hget : line[pos]? = some c := by
+      have := congrArg (·[0]?) hrest
+      cases n with
+      | zero => omega
+      | succ n => simpa [List.getElem?_drop, List.replicate_succ] using this
+    have hc0 : (c != 96 && c != 126) = false := by
+      rcases hc with h | h <;> subst h <;> decide
+    have hdrop : line.drop (pos + n) = rest := by
+      rw [← List.drop_drop, hrest]; simp
+    have hbad : fenceInfoBad c line (pos + n) = false := by
+      by_cases hc96 : c = 96
+      · subst hc96
+        have := fenceInfoBad_backtick line (pos + n) (by rw [hdrop]; exact hhead)
+        rw [hdrop] at this
+        cases hb : fenceInfoBad 96 line (pos + n) with
+        | false => rfl
+        | true => exact absurd (this.mp hb) (h96 rfl)
+      · exact fenceInfoBad_tilde c line _ hc96
+    refine ⟨fenceInfo line (pos + n), ?_⟩
+    unfold fenceOpen
+    simp only [hget, hc0, Bool.false_eq_true, if_false, hrun, hbad]
+    have : ¬ n < 3 := by omega
+    simp [this]
+
+/-! ### setext underline -/
+
+theorem takeWhile_head_fails {α} (p : α → Bool) (l : List α) (h : ∀ x ∈ l.head?, p x = false) : l.takeWhile p = [] := by
+  cases l with
+  | nil => rfl
+  | cons a l => have := h a (by simp); simp [List.takeWhile_cons, this]
+
+theorem trimRight_append_spaces (a ws : Bytes) (hws : ws.all isSpace = true)
+    (ha : ∀ x ∈ a.getLast?, isSpace x = false) : trimRightSpaceLength (a ++ ws) = ws.length := by
+  unfold trimRightSpaceLength
+  rw [List.reverse_append, List.takeWhile_append]
+  have h1 : ws.reverse.takeWhile isSpace = ws.reverse := takeWhile_all _ _ (by simpa using hws)
+  have h2 : a.reverse.takeWhile isSpace = [] := takeWhile_head_fails _ _ (by simpa [List.head?_reverse] using ha)
+  simp [h1, h2]
+
+theorem isSpace_setext {c : UInt8} (h : c = 61 ∨ c = 45) : isSpace c = false ∧ c ≠ 32 := by
+  rcases h with h | h <;> subst h <;> decide
+
+theorem setextBar_iff (line : Bytes) (c : UInt8) :
+    setextBar line = .ok (some c) ↔
+      ∃ k n ws, k ≤ 3 ∧ 1 ≤ n ∧ (c = 61 ∨ c = 45) ∧ ws.all isSpace = true ∧
+        line = List.replicate k 32 ++ (List.replicate n c ++ ws) := by
+  constructor
+  · intro h
+    unfold setextBar at h
+    by_cases hk : (line.takeWhile (· == 32)).length > 3
+    · simp [hk] at h
+    · simp only [hk, if_false, drop_len_takeWhile] at h
+      obtain ⟨hline, _⟩ := run_split 32 line
+      cases hlast : line.getLast? with
+      | none => simp [hlast] at h
+      | some last =>
+        simp only [hlast] at h
+        -- which character, which level
+        have key : ∀ (ch : UInt8) (lvl : Nat), (ch = 61 ∨ ch = 45) →
+            lvl = ((line.dropWhile (· == 32)).takeWhile (· == ch)).length → 0 < lvl →
+            (line.takeWhile (· == 32)).length + lvl =
+              (if isSpace last = true then line.length - trimRightSpaceLength (line.dropWhile (· == 32)) else line.length) →
+            ∃ k n ws, k ≤ 3 ∧ 1 ≤ n ∧ (ch = 61 ∨ ch = 45) ∧ ws.all isSpace = true ∧
+              line = List.replicate k 32 ++ (List.replicate n ch ++ ws) := by
+          intro ch lvl hch hlvl hpos he
+          obtain ⟨hrest, _⟩ := run_split ch (line.dropWhile (· == 32))
+          refine ⟨(line.takeWhile (· == 32)).length, lvl, (line.dropWhile (· == 32)).dropWhile (· == ch), Nat.le_of_not_gt hk, hpos, hch, ?_, ?_⟩
+          · -- the remainder is exactly the trailing white space
+            have hlen1 : line.length = (line.takeWhile (· == 32)).length + (line.dropWhile (· == 32)).length := by
+              have h := congrArg List.length (List.takeWhile_append_dropWhile (p := (· == 32)) (l := line))
+              rw [List.length_append] at h; exact h.symm
+            have hlen2 : (line.dropWhile (· == 32)).length = lvl + ((line.dropWhile (· == 32)).dropWhile (· == ch)).length := by
+              have := congrArg List.length hrest; simp at this; omega
+            have htr := trimRight_le (line.dropWhile (· == 32))
+            by_cases hsp : isSpace last = true
+            · simp only [hsp, if_true] at he
+              have hd : (line.dropWhile (· == 32)).dropWhile (· == ch) =
+                  (line.dropWhile (· == 32)).drop ((line.dropWhile (· == 32)).length - trimRightSpaceLength (line.dropWhile (· == 32))) := by
+                rw [← drop_len_takeWhile]; congr 1; omega
+              rw [hd, List.all_eq_true]
+              exact drop_trailing_space _
+            · have hsp' : isSpace last = false := by simpa using hsp
+              rw [hsp'] at he
+              simp only [Bool.false_eq_true, if_false] at he
+              have : ((line.dropWhile (· == 32)).dropWhile (· == ch)).length = 0 := by omega
+              rw [List.eq_nil_of_length_eq_zero this]; rfl
+          · rw [hlvl, ← hrest]; exact hline
+        by_cases h1 : ((line.dropWhile (· == 32)).takeWhile (· == 61)).length = 0
+        · simp only [h1, beq_self_eq_true, if_true, Nat.lt_irrefl, decide_false, Bool.false_and, Bool.false_or] at h
+          by_cases hc2 : (decide (0 < ((line.dropWhile (· == 32)).takeWhile (· == 45)).length) &&
+              (line.takeWhile (· == 32)).length + ((line.dropWhile (· == 32)).takeWhile (· == 45)).length ==
+                (if isSpace last = true then line.length - trimRightSpaceLength (line.dropWhile (· == 32)) else line.length)) = true
+          · simp only [hc2, if_true] at h
+            injection h with h; injection h with h; subst h
+            simp only [Bool.and_eq_true, decide_eq_true_eq, beq_iff_eq] at hc2
+            exact key 45 _ (Or.inr rfl) rfl hc2.1 hc2.2
+          · simp [hc2] at h
+        · have h1' : (((line.dropWhile (· == 32)).takeWhile (· == 61)).length == 0) = false := by simpa using h1
+          simp only [h1', Bool.false_eq_true, if_false, Nat.lt_irrefl, decide_false, Bool.false_and, Bool.or_false] at h
+          by_cases hc2 : (decide (0 < ((line.dropWhile (· == 32)).takeWhile (· == 61)).length) &&
+              (line.takeWhile (· == 32)).length + ((line.dropWhile (· == 32)).takeWhile (· == 61)).length ==
+                (if isSpace last = true then line.length - trimRightSpaceLength (line.dropWhile (· == 32)) else line.length)) = true
+          · simp only [hc2, if_true] at h
+            injection h with h; injection h with h; subst h
+            simp only [Bool.and_eq_true, decide_eq_true_eq, beq_iff_eq] at hc2
+            exact key 61 _ (Or.inl rfl) rfl hc2.1 hc2.2
+          · simp [hc2] at h
+  · rintro ⟨k, n, ws, hk, hn, hc, hws, hline⟩
+    obtain ⟨hcs, hc32⟩ := isSpace_setext hc
+    have hwsh : ∀ (d : UInt8), d ≠ 32 → isSpace d = false → ws.head? ≠ some d := by
+      intro d _ hd
+      cases ws with
+      | nil => simp
+      | cons e ws => simp at hws ⊢; intro h; subst h; simp [hd] at hws
+    have hnh : (List.replicate n c ++ ws).head? ≠ some 32 := by
+      cases n with
+      | zero => omega
+      | succ n => simp [List.replicate_succ]; exact hc32
+    have hlead : (line.takeWhile (· == 32)).length = k := by rw [hline]; exact run_length 32 k _ hnh
+    have hrest : line.dropWhile (· == 32) = List.replicate n c ++ ws := by
+      rw [← drop_len_takeWhile, hlead, hline]; simp
+    have hlen : line.length = k + (n + ws.length) := by rw [hline]; simp
+    have hrunc : ((List.replicate n c ++ ws).takeWhile (· == c)).length = n := run_length c n ws (hwsh c hc32 hcs)
+    -- the last byte and the trailing white space
+    have hlastrep : (List.replicate n c).getLast? = some c := by
+      rw [List.getLast?_replicate]; simp; omega
+    have htrim : trimRightSpaceLength (List.replicate n c ++ ws) = ws.length :=
+      trimRight_append_spaces _ ws hws (by rw [hlastrep]; simpa using hcs)
+    have hlast : ∃ last, line.getLast? = some last ∧
+        (if isSpace last = true then line.length - trimRightSpaceLength (List.replicate n c ++ ws) else line.length) = k + n := by
+      cases hw : ws.getLast? with
+      | none =>
+        have : ws = [] := by simpa using hw
+        subst this
+        refine ⟨c, by rw [hline]; simp [List.getLast?_append, hlastrep], ?_⟩
+        simp [hcs, hlen]
+      | some l =>
+        have hl : isSpace l = true := by
+          have := List.mem_of_getLast? hw
+          exact (List.all_eq_true.mp hws) l this
+        refine ⟨l, by rw [hline]; simp [List.getLast?_append, hw], ?_⟩
+        simp [hl, htrim, hlen]; omega
+    obtain ⟨last, hl1, hl2⟩ := hlast
+    unfold setextBar
+    have hk' : ¬ (line.takeWhile (· == 32)).length > 3 := by omega
+    have hdropk : line.drop k = List.replicate n c ++ ws := by rw [hline]; simp
+    have hk3 : ¬ k > 3 := by omega
+    simp only [hlead, hdropk, hl1, hk3, if_false]
+    rw [hl2]
+    have hn0 : (n == 0) = false := by simp; omega
+    have hpos : decide (n > 0) = true := by simp; omega
+    rcases hc with hc | hc
+    · subst hc
+      simp only [hrunc, hn0, hpos, beq_self_eq_true, Bool.and_self, Bool.true_or, if_true, Bool.false_eq_true, if_false]
+    · subst hc
+      have h61 : ((List.replicate n 45 ++ ws).takeWhile (· == 61)).length = 0 := by
+        cases n with
+        | zero => omega
+        | succ n => simp [List.replicate_succ]
+      simp only [h61, hrunc, hpos, beq_self_eq_true, Bool.and_self, Bool.or_true, if_true]
+
+/-! ### list markers -/
+
+/-- what may follow a list marker: end of line (nothing, or the line's LF) or a space / tab -/
+def restOK : Bytes → Bool
+  | [] => true
+  | d :: _ => d == 10 || d == 32 || d == 9
+
+/-- bullet list marker characters `-`, `*`, `+` -/
+def isBullet (c : UInt8) : Bool := c == 45 || c == 42 || c == 43
+
+theorem iw_zero_iff (c : UInt8) (cs : Bytes) : ((indentWidth (c :: cs) 0).1 == 0) = !(c == 32 || c == 9) := by
+  unfold indentWidth indentWidthGo
+  by_cases h32 : c = 32
+  · subst h32
+    have := indentWidthGo_mono 0 cs (0 + 1) (0 + 1)
+    simp only [beq_self_eq_true, if_true, Bool.true_or, Bool.not_true, beq_eq_false_iff_ne, ne_eq]
+    omega
+  · by_cases h9 : c = 9
+    · subst h9
+      have := indentWidthGo_mono 0 cs (0 + tabWidth (0 + 0)) (0 + 1)
+      simp [tabWidth] at this ⊢; omega
+    · simp [h32, h9]
+
+theorem pliFinish_typ (line : Bytes) (k i : Nat) (typ : ListTyp) :
+    (pliFinish line k i typ).2 = if restOK (line.drop i) then typ else .notList := by
+  unfold pliFinish
+  cases h : line.drop i with
+  | nil => simp [restOK]
+  | cons c cs =>
+    simp only [iw_zero_iff, restOK]
+    by_cases h10 : c = 10
+    · subst h10; simp
+    · by_cases h32 : c = 32
+      · subst h32; simp
+      · by_cases h9 : c = 9
+        · subst h9; simp
+        · simp [h10, h32, h9]
+
+/-- the list type decided on the line after its leading spaces -/
+def tailTyp : Bytes → ListTyp
+  | [] => .notList
+  | c :: cs =>
+    if isBullet c then (if restOK cs then .bullet else .notList)
+    else
+      let nd := ((c :: cs).takeWhile isNumeric).length
+      if nd == 0 || nd > 9 then .notList
+      else
+        match (c :: cs).drop nd with
+        | d :: rest => if d == 46 || d == 41 then (if restOK rest then .ordered else .notList) else .notList
+        | [] => .notList
+
+theorem pli_typ (k : Nat) (tail : Bytes) (hns : tail.head? ≠ some 32) :
+    (parseListItem (List.replicate k 32 ++ tail)).2 = if k > 3 then .notList else tailTyp tail := by
+  unfold parseListItem
+  simp only [run_length 32 k tail hns, drop_replicate_append]
+  by_cases hk : k > 3
+  · simp [hk]
+  · simp only [hk, if_false]
+    cases tail with
+    | nil => simp [tailTyp]
+    | cons c cs =>
+      simp only [tailTyp, isBullet]
+      by_cases hb : (c == 45 || c == 42 || c == 43) = true
+      · simp only [hb, if_true, pliFinish_typ]
+        have : (List.replicate k (32 : UInt8) ++ c :: cs).drop (k + 1) = cs := by
+          rw [← List.drop_drop, drop_replicate_append]; rfl
+        rw [this]
+      · simp only [hb, Bool.false_eq_true, if_false]
+        by_cases hnd : (((c :: cs).takeWhile isNumeric).length == 0 || decide (((c :: cs).takeWhile isNumeric).length > 9)) = true
+        · simp only [hnd, if_true]
+        · simp only [hnd, Bool.false_eq_true, if_false]
+          cases hd : (c :: cs).drop ((c :: cs).takeWhile isNumeric).length with
+          | nil => rfl
+          | cons d rest =>
+            simp only []
+            by_cases hdel : (d == 46 || d == 41) = true
+            · simp only [hdel, if_true, pliFinish_typ]
+              have : (List.replicate k (32 : UInt8) ++ c :: cs).drop (k + ((c :: cs).takeWhile isNumeric).length + 1) = rest := by
+                rw [Nat.add_assoc, ← List.drop_drop, drop_replicate_append, ← List.drop_drop, hd]; rfl
+              rw [this]
+            · simp only [hdel, Bool.false_eq_true, if_false]
+
+theorem isBullet_not32 {c : UInt8} (h : isBullet c = true) : c ≠ 32 := by
+  intro h32; subst h32; simp [isBullet] at h
+
+theorem numeric_facts : ∀ c : UInt8, isNumeric c = true → isBullet c = false ∧ c ≠ 32 ∧ c ≠ 46 ∧ c ≠ 41 := by
+  apply forall_uint8; decide +kernel
+
+theorem takeWhile_append_stop {α} (p : α → Bool) (ds t : List α) (hds : ds.all p = true)
+    (ht : ∀ x ∈ t.head?, p x = false) : (ds ++ t).takeWhile p = ds := by
+  rw [List.takeWhile_append, takeWhile_all p ds hds, takeWhile_head_fails p t ht]; simp
+
+theorem parseListItem_bullet_iff (line : Bytes) :
+    (parseListItem line).2 = .bullet ↔
+      ∃ k c rest, k ≤ 3 ∧ isBullet c = true ∧ line = List.replicate k 32 ++ c :: rest ∧ restOK rest = true := by
+  constructor
+  · intro h
+    obtain ⟨k, tail, hline, hns⟩ := exists_lead_decomp line
+    subst hline
+    rw [pli_typ k tail hns] at h
+    by_cases hk : k > 3
+    · simp [hk] at h
+    · simp only [hk, if_false] at h
+      cases tail with
+      | nil => simp [tailTyp] at h
+      | cons c cs =>
+        simp only [tailTyp] at h
+        by_cases hb : isBullet c = true
+        · simp only [hb, if_true] at h
+          by_cases hr : restOK cs = true
+          · exact ⟨k, c, cs, by omega, hb, rfl, hr⟩
+          · simp [hr] at h
+        · simp only [hb, Bool.false_eq_true, if_false] at h
+          split at h
+          · cases h
+          · split at h
+            · split at h
+              · split at h <;> cases h
+              · cases h
+            · cases h
+  · rintro ⟨k, c, rest, hk, hb, hline, hr⟩
+    subst hline
+    rw [pli_typ k (c :: rest) (by simpa using isBullet_not32 hb)]
+    have : ¬ k > 3 := by omega
+    simp [this, tailTyp, hb, hr]
+
+theorem parseListItem_ordered_iff (line : Bytes) :
+    (parseListItem line).2 = .ordered ↔
+      ∃ k ds d rest, k ≤ 3 ∧ 1 ≤ ds.length ∧ ds.length ≤ 9 ∧ ds.all isNumeric = true ∧ (d = 46 ∨ d = 41) ∧
+        line = List.replicate k 32 ++ (ds ++ d :: rest) ∧ restOK rest = true := by
+  constructor
+  · intro h
+    obtain ⟨k, tail, hline, hns⟩ := exists_lead_decomp line
+    subst hline
+    rw [pli_typ k tail hns] at h
+    by_cases hk : k > 3
+    · simp [hk] at h
+    · simp only [hk, if_false] at h
+      cases tail with
+      | nil => simp [tailTyp] at h
+      | cons c cs =>
+        simp only [tailTyp] at h
+        by_cases hb : isBullet c = true
+        · simp only [hb, if_true] at h
+          split at h <;> cases h
+        · simp only [hb, Bool.false_eq_true, if_false] at h
+          by_cases hnd : (((c :: cs).takeWhile isNumeric).length == 0 || decide (((c :: cs).takeWhile isNumeric).length > 9)) = true
+          · simp [hnd] at h
+          · simp only [hnd, Bool.false_eq_true, if_false] at h
+            cases hd : (c :: cs).drop ((c :: cs).takeWhile isNumeric).length with
+            | nil => simp [hd] at h
+            | cons d rest =>
+              simp only [hd] at h
+              by_cases hdel : (d == 46 || d == 41) = true
+              · simp only [hdel, if_true] at h
+                by_cases hr : restOK rest = true
+                · have hsplit : c :: cs = (c :: cs).takeWhile isNumeric ++ d :: rest := by
+                    rw [← hd, drop_len_takeWhile]; exact (List.takeWhile_append_dropWhile).symm
+                  have hbounds : 1 ≤ ((c :: cs).takeWhile isNumeric).length ∧ ((c :: cs).takeWhile isNumeric).length ≤ 9 := by
+                    generalize ((c :: cs).takeWhile isNumeric).length = m at hnd
+                    simp at hnd; omega
+                  refine ⟨k, (c :: cs).takeWhile isNumeric, d, rest, by omega, hbounds.1, hbounds.2, ?_, ?_, ?_, hr⟩
+                  · rw [List.all_eq_true]; exact takeWhile_all_of _ _
+                  · simpa using hdel
+                  · rw [← hsplit]
+                · simp [hr] at h
+              · simp [hdel] at h
+  · rintro ⟨k, ds, d, rest, hk, h1, h9, hds, hd, hline, hr⟩
+    subst hline
+    cases ds with
+    | nil => simp at h1
+    | cons c cs =>
+      have hc := numeric_facts c (by simp only [List.all_cons, Bool.and_eq_true] at hds; exact hds.1)
+      have hdn : isNumeric d = false := by rcases hd with h | h <;> subst h <;> decide
+      rw [pli_typ k (c :: cs ++ d :: rest) (by simpa using hc.2.1)]
+      have hk' : ¬ k > 3 := by omega
+      have htw : ((c :: (cs ++ d :: rest)).takeWhile isNumeric) = c :: cs := by
+        have := takeWhile_append_stop isNumeric (c :: cs) (d :: rest) hds (by simpa using hdn)
+        simpa using this
+      have hdrop : (c :: (cs ++ d :: rest)).drop (cs.length + 1) = d :: rest := by
+        have : c :: (cs ++ d :: rest) = (c :: cs) ++ d :: rest := rfl
+        rw [this, ← List.length_cons (a := c), List.drop_left]
+      have hdel : (d == 46 || d == 41) = true := by rcases hd with h | h <;> subst h <;> decide
+      have hlen : ¬ ((cs.length + 1 == 0) || decide (cs.length + 1 > 9)) = true := by
+        simp at h9 ⊢; omega
+      simp only [hk', if_false, List.cons_append, tailTyp, hc.1, Bool.false_eq_true, htw, List.length_cons, hlen, hdrop, hdel,
+        if_true, hr]
+
+theorem pliFinish_match (line : Bytes) (k i : Nat) (typ : ListTyp) (hr : restOK (line.drop i) = true) :
+    let m := (pliFinish line k i typ).1
+    m.r0 = 0 ∧ m.r1 = k ∧ m.r2 = k ∧ m.r3 = i ∧ m.r4 = (if line.drop i = [] then -1 else (i : Int)) ∧
+    (line.drop i = [] → m.r5 = -1) ∧
+    (line.drop i ≠ [] → m.r5 = line.length ∨ m.r5 = (line.length - 1 : Nat)) := by
+  have ht := pliFinish_typ line k i typ
+  unfold pliFinish at *
+  cases h : line.drop i with
+  | nil => simp
+  | cons c cs =>
+    rw [h] at hr
+    have hcond : (c != 10 && (indentWidth (c :: cs) 0).1 == 0) = false := by
+      rw [iw_zero_iff]
+      simp only [restOK, Bool.or_eq_true, beq_iff_eq] at hr
+      rcases hr with (h | h) | h <;> subst h <;> decide
+    simp only [hcond, Bool.false_eq_true, if_false]
+    refine ⟨?_, ?_, ?_, ?_, ?_, ?_, ?_⟩
+    all_goals try simp
+    split
+    · exact Or.inr rfl
+    · exact Or.inl rfl
+
+/-- the match array of an accepted bullet item -/
+theorem parseListItem_bullet_match (k : Nat) (c : UInt8) (rest : Bytes) (hk : k ≤ 3) (hb : isBullet c = true)
+    (hr : restOK rest = true) :
+    let m := (parseListItem (List.replicate k 32 ++ c :: rest)).1
+    m.r0 = 0 ∧ m.r1 = k ∧ m.r2 = k ∧ m.r3 = (k + 1 : Nat) ∧ m.r4 = (if rest = [] then -1 else ((k + 1 : Nat) : Int)) := by
+  have hns : (c :: rest).head? ≠ some 32 := by simpa using isBullet_not32 hb
+  have hdrop : (List.replicate k (32 : UInt8) ++ c :: rest).drop (k + 1) = rest := by
+    rw [← List.drop_drop, drop_replicate_append]; rfl
+  have hfin := pliFinish_match (List.replicate k 32 ++ c :: rest) k (k + 1) .bullet (by rw [hdrop]; exact hr)
+  rw [hdrop] at hfin
+  unfold parseListItem
+  simp only [run_length 32 k (c :: rest) hns, drop_replicate_append]
+  have hk' : ¬ k > 3 := by omega
+  have hb' : (c == 45 || c == 42 || c == 43) = true := hb
+  simp only [hk', if_false, hb', if_true]
+  exact ⟨hfin.1, hfin.2.1, hfin.2.2.1, hfin.2.2.2.1, hfin.2.2.2.2.1⟩
+
+/-- the match array of an accepted ordered item -/
+theorem parseListItem_ordered_match (k : Nat) (ds : Bytes) (d : UInt8) (rest : Bytes) (hk : k ≤ 3)
+    (h1 : 1 ≤ ds.length) (h9 : ds.length ≤ 9) (hds : ds.all isNumeric = true) (hd : d = 46 ∨ d = 41)
+    (hr : restOK rest = true) :
+    let m := (parseListItem (List.replicate k 32 ++ (ds ++ d :: rest))).1
+    m.r0 = 0 ∧ m.r1 = k ∧ m.r2 = k ∧ m.r3 = (k + ds.length + 1 : Nat) ∧
+      m.r4 = (if rest = [] then -1 else ((k + ds.length + 1 : Nat) : Int)) := by
+  cases ds with
+  | nil => simp at h1
+  | cons c cs =>
+    have hc := numeric_facts c (by simp only [List.all_cons, Bool.and_eq_true] at hds; exact hds.1)
+    have hdn : isNumeric d = false := by rcases hd with h | h <;> subst h <;> decide
+    have hns : (c :: cs ++ d :: rest).head? ≠ some 32 := by simpa using hc.2.1
+    have htw : ((c :: (cs ++ d :: rest)).takeWhile isNumeric) = c :: cs := by
+      have := takeWhile_append_stop isNumeric (c :: cs) (d :: rest) hds (by simpa using hdn)
+      simpa using this
+    have hdrop1 : (c :: (cs ++ d :: rest)).drop (cs.length + 1) = d :: rest := by
+      have : c :: (cs ++ d :: rest) = (c :: cs) ++ d :: rest := rfl
+      rw [this, ← List.length_cons (a := c), List.drop_left]
+    have hdrop : (List.replicate k (32 : UInt8) ++ (c :: cs ++ d :: rest)).drop (k + (cs.length + 1) + 1) = rest := by
+      rw [Nat.add_assoc, ← List.drop_drop, drop_replicate_append, ← List.drop_drop]
+      show ((c :: (cs ++ d :: rest)).drop (cs.length + 1)).drop 1 = rest
+      rw [hdrop1]; rfl
+    have hfin := pliFinish_match (List.replicate k 32 ++ (c :: cs ++ d :: rest)) k (k + (cs.length + 1) + 1) .ordered
+      (by rw [hdrop]; exact hr)
+    rw [hdrop] at hfin
+    have hdel : (d == 46 || d == 41) = true := by rcases hd with h | h <;> subst h <;> decide
+    have hlen : ¬ ((cs.length + 1 == 0) || decide (cs.length + 1 > 9)) = true := by
+      simp at h9 ⊢; omega
+    have hb' : (c == 45 || c == 42 || c == 43) = false := hc.1
+    have hk' : ¬ k > 3 := by omega
+    unfold parseListItem
+    simp only [List.cons_append, run_length 32 k (c :: (cs ++ d :: rest)) hns, drop_replicate_append, hk', if_false, hb', Bool.false_eq_true, htw,
+      List.length_cons, hlen, hdrop1, hdel, if_true]
+    simp only [List.cons_append, List.length_cons] at hfin
+    exact ⟨hfin.1, hfin.2.1, hfin.2.2.1, hfin.2.2.2.1, hfin.2.2.2.2.1⟩
+
+/-! ### IndentPosition: which column it stops at -/
+
+theorem tabWidth_le (n : Nat) : tabWidth n ≤ 4 ∧ 1 ≤ tabWidth n := by
+  unfold tabWidth; omega
+
+/-- the loop consumes `m` indentation bytes whose width (from column `c`, starting at width `w`) is the returned width -/
+theorem ippLoop_spec (c width : Nat) (bs : Bytes) (i w : Nat) (hw : w < width + 4) :
+    ∃ m, (ippLoop c width bs i 0 w).1 = i + m ∧ m ≤ bs.length ∧ (bs.take m).all isIndent = true ∧
+      (ippLoop c width bs i 0 w).2 = (indentWidthGo c (bs.take m) w 0).1 ∧ (ippLoop c width bs i 0 w).2 < width + 4 := by
+  induction bs generalizing i w with
+  | nil => exact ⟨0, by simp [ippLoop, indentWidthGo, hw]⟩
+  | cons b bs ih =>
+    unfold ippLoop
+    by_cases h9 : (b == 9 && decide (w < width)) = true
+    · simp only [Nat.lt_irrefl, if_false, h9, if_true]
+      have hb : b = 9 := by simp at h9; exact h9.1
+      have hlt : w < width := by simp at h9; exact h9.2
+      obtain ⟨m, h1, h2, h3, h4, h5⟩ := ih (i + 1) (w + tabWidth (c + w)) (by have := tabWidth_le (c + w); omega)
+      refine ⟨m + 1, by rw [h1]; omega, by simp; omega, ?_, ?_, h5⟩
+      · subst hb; simp [List.take_succ_cons, h3, isIndent]
+      · subst hb
+        rw [h4, List.take_succ_cons]
+        simp only [indentWidthGo, beq_self_eq_true, if_true]
+        have e : ((9 : UInt8) == 32) = false := by decide
+        simp only [e, Bool.false_eq_true, if_false]
+        exact indentWidthGo_fst_indep _ _ _ _ _
+    · simp only [Nat.lt_irrefl, if_false, h9, Bool.false_eq_true]
+      by_cases h32 : (b == 32 && decide (w < width)) = true
+      · simp only [h32, if_true]
+        have hb : b = 32 := by simp at h32; exact h32.1
+        have hlt : w < width := by simp at h32; exact h32.2
+        obtain ⟨m, h1, h2, h3, h4, h5⟩ := ih (i + 1) (w + 1) (by omega)
+        refine ⟨m + 1, by rw [h1]; omega, by simp; omega, ?_, ?_, h5⟩
+        · subst hb; simp [List.take_succ_cons, h3, isIndent]
+        · subst hb
+          rw [h4, List.take_succ_cons]
+          simp only [indentWidthGo, beq_self_eq_true, if_true]
+          exact indentWidthGo_fst_indep _ _ _ _ _
+      · simp only [h32, Bool.false_eq_true, if_false]
+        exact ⟨0, by simp [indentWidthGo, hw]⟩
+
+/-- `indentPosition_column`. When `IndentPosition(bs, c, width)` succeeds with `(pos, padding)`: the first `pos` bytes
+    are spaces/tabs, their width from column `c` is exactly `width + padding`, and `padding ≤ 3` — i.e. position minus
+    padding denotes exactly column `c + width`. -/
+theorem indentPosition_column (bs : Bytes) (c width : Nat) (hw : 0 < width)
+    (hok : width ≤ (indentWidth bs c).1) :
+    ∃ m pad : Nat, indentPosition bs c width = ((m : Int), (pad : Int)) ∧ m ≤ bs.length ∧
+      (bs.take m).all isIndent = true ∧ (indentWidth (bs.take m) c).1 = width + pad ∧ pad ≤ 3 := by
+  obtain ⟨m, h1, h2, h3, h4, h5⟩ := ippLoop_spec c width bs 0 0 (by omega)
+  have hreach : width ≤ (ippLoop c width bs 0 0 0).2 := (ippLoop_reaches c width bs 0 0).mpr hok
+  refine ⟨m, (ippLoop c width bs 0 0 0).2 - width, ?_, h2, h3, ?_, by omega⟩
+  · unfold indentPosition indentPositionPadding
+    have h0 : (width == 0) = false := by simp; omega
+    simp only [h0, Bool.false_eq_true, if_false, ge_iff_le, hreach, if_true, h1]
+    simp
+  · unfold indentWidth; rw [← h4]; omega
+
+theorem tabs_eq_spaces_padding (c : Nat) (p q r : Bytes) (hp : p.all isIndent = true) (hq : q.all isIndent = true)
+    (hr : ∀ b ∈ r.head?, isIndent b = false) (hw : (indentWidth p c).1 = (indentWidth q c).1)
+    (width : Nat) (hpos : 0 < width) (hle : width ≤ (indentWidth p c).1) :
+    ∃ m₁ pad₁ m₂ pad₂ : Nat,
+      indentPosition (p ++ r) c width = ((m₁ : Int), (pad₁ : Int)) ∧
+      indentPosition (q ++ r) c width = ((m₂ : Int), (pad₂ : Int)) ∧
+      (indentWidth ((p ++ r).take m₁) c).1 = width + pad₁ ∧ (indentWidth ((q ++ r).take m₂) c).1 = width + pad₂ ∧
+      pad₁ ≤ 3 ∧ pad₂ ≤ 3 := by
+  obtain ⟨e1, e2, _⟩ := tabs_eq_spaces c p q r hp hq hr hw
+  obtain ⟨m₁, pad₁, h1, _, _, h1w, h1p⟩ := indentPosition_column (p ++ r) c width hpos (by rw [e1]; exact hle)
+  obtain ⟨m₂, pad₂, h2, _, _, h2w, h2p⟩ := indentPosition_column (q ++ r) c width hpos (by rw [e2]; exact hle)
+  exact ⟨m₁, pad₁, m₂, pad₂, h1, h2, h1w, h2w, h1p, h2p⟩
+
+/-! ### ATX content range -/
+
+theorem atxScanBack_stop (line : Bytes) (start j : Nat) (d : UInt8) (hj : line[j]? = some d) (hd : d ≠ 35) :
+    atxScanBack line start j = .ok j := by
+  cases j with
+  | zero => simp [atxScanBack, hj, hd]
+  | succ j => simp [atxScanBack, hj, hd]
+
+theorem getElem?_mid (P T : Bytes) (d : UInt8) : (P ++ d :: T)[P.length]? = some d := by
+  simp [List.getElem?_append_right]
+
+theorem atxScan_run (P T : Bytes) (d : UInt8) (h start : Nat) (hd : d ≠ 35) (hs : start ≤ P.length + 1) :
+    atxScanBack (P ++ d :: (List.replicate h 35 ++ T)) start (P.length + h) = .ok P.length := by
+  induction h generalizing T with
+  | zero => exact atxScanBack_stop _ _ _ d (by simpa using getElem?_mid P T d) hd
+  | succ h ih =>
+    have hre : List.replicate (h + 1) (35 : UInt8) ++ T = List.replicate h 35 ++ (35 :: T) := by
+      rw [List.replicate_succ', List.append_assoc]; rfl
+    rw [hre]
+    have hget : (P ++ d :: (List.replicate h 35 ++ 35 :: T))[P.length + h + 1]? = some 35 := by
+      have : P ++ d :: (List.replicate h 35 ++ 35 :: T) = (P ++ d :: List.replicate h 35) ++ 35 :: T := by simp
+      rw [this]
+      have hl : (P ++ d :: List.replicate h (35 : UInt8)).length = P.length + h + 1 := by simp; omega
+      rw [← hl]; exact getElem?_mid _ _ _
+    have hge : P.length + h + 1 ≥ start := by omega
+    show atxScanBack _ start (P.length + h + 1) = _
+    simp only [atxScanBack, hget, beq_self_eq_true, hge, decide_true, Bool.and_self, if_true]
+    exact ih (35 :: T)
+
+theorem atxContent_core (P T : Bytes) (d : UInt8) (h start : Nat) (hd : d ≠ 35) (hs : start ≤ P.length) :
+    atxContent (P ++ d :: (List.replicate h 35 ++ T)) start (P.length + 1 + h) =
+      .ok (some (start, P.length + 1 + (if isSpace d = true then 0 else h))) := by
+  unfold atxContent
+  have h1 : ¬ (P.length + 1 + h ≤ start) := by omega
+  have h2 : P.length + 1 + h - 1 = P.length + h := by omega
+  have hgetd : (P ++ d :: (List.replicate h 35 ++ T))[P.length]? = some d := getElem?_mid _ _ _
+  simp only [h1, if_false, h2, atxScan_run P T d h start hd (by omega), hgetd]
+  -- the stop position
+  have hstop : (if (P.length != P.length + h && !isSpace d) = true then P.length + h else P.length) + 1
+      = P.length + 1 + (if isSpace d = true then 0 else h) := by
+    by_cases hsp : isSpace d = true
+    · simp [hsp]
+    · have hsp' : isSpace d = false := by simpa using hsp
+      by_cases h0 : h = 0
+      · subst h0; simp [hsp']
+      · have : (P.length != P.length + h) = true := by simp; omega
+        simp [hsp', this]; omega
+  rw [hstop]
+  have h3 : ¬ (P.length + 1 + (if isSpace d = true then 0 else h) < start) := by omega
+  have hany : (((P ++ d :: (List.replicate h 35 ++ T)).drop start).take
+      (P.length + 1 + (if isSpace d = true then 0 else h) - start)).any (· != 35) = true := by
+    rw [List.any_eq_true]
+    refine ⟨d, ?_, by simpa using hd⟩
+    rw [List.mem_iff_getElem?]
+    refine ⟨P.length - start, ?_⟩
+    rw [List.getElem?_take]
+    have hlt : P.length - start < P.length + 1 + (if isSpace d = true then 0 else h) - start := by omega
+    simp only [hlt, if_true, List.getElem?_drop]
+    have : start + (P.length - start) = P.length := by omega
+    rw [this]; exact hgetd
+  simp only [h3, if_false, hany, if_true]
+
+theorem atx_content_range (pre s1 text trail : Bytes) (d : UInt8) (n h : Nat)
+    (hn1 : 1 ≤ n) (hn6 : n ≤ 6) (hs1 : s1 ≠ []) (hs1s : s1.all isSpace = true)
+    (hhead : ∀ x ∈ (text ++ [d]).head?, isSpace x = false)
+    (hd35 : d ≠ 35) (hdh : isSpace d = true → 1 ≤ h) (htrail : trail.all isSpace = true) :
+    atxOpen (pre ++ (List.replicate n 35 ++ (s1 ++ (text ++ d :: (List.replicate h 35 ++ trail))))) pre.length =
+      .ok (some { level := n,
+                  content := some (pre.length + n + s1.length,
+                    pre.length + n + s1.length + text.length + 1 + (if isSpace d = true then 0 else h)) }) := by
+  -- abbreviations
+  have hB : ∀ x ∈ (text ++ d :: (List.replicate h 35 ++ trail)).head?, isSpace x = false := by
+    cases text with
+    | nil => simpa using hhead
+    | cons t ts => simpa using hhead
+  have hs1h : (s1 ++ (text ++ d :: (List.replicate h 35 ++ trail))).head? ≠ some 35 := by
+    cases s1 with
+    | nil => exact absurd rfl hs1
+    | cons a s1 =>
+      simp only [List.all_cons, Bool.and_eq_true] at hs1s
+      simp; intro h35; subst h35; simp [isSpace] at hs1s
+  -- the opening run
+  have hdrop0 : (pre ++ (List.replicate n 35 ++ (s1 ++ (text ++ d :: (List.replicate h 35 ++ trail))))).drop pre.length
+      = List.replicate n 35 ++ (s1 ++ (text ++ d :: (List.replicate h 35 ++ trail))) := List.drop_left
+  have hrun := run_length 35 n _ hs1h
+  have hdropi : (pre ++ (List.replicate n 35 ++ (s1 ++ (text ++ d :: (List.replicate h 35 ++ trail))))).drop (pre.length + n)
+      = s1 ++ (text ++ d :: (List.replicate h 35 ++ trail)) := by
+    rw [← List.drop_drop, hdrop0]; simp
+  have hl : trimLeftSpaceLength (s1 ++ (text ++ d :: (List.replicate h 35 ++ trail))) = s1.length := by
+    unfold trimLeftSpaceLength
+    rw [takeWhile_append_stop isSpace s1 _ hs1s hB]
+  have hs1pos : 0 < s1.length := by
+    cases s1 with
+    | nil => exact absurd rfl hs1
+    | cons _ _ => simp
+  -- the end of the text: trailing white space
+  have hX : pre ++ (List.replicate n 35 ++ (s1 ++ (text ++ d :: (List.replicate h 35 ++ trail))))
+      = (pre ++ (List.replicate n 35 ++ (s1 ++ (text ++ d :: List.replicate h 35)))) ++ trail := by simp
+  have hXlast : ∀ x ∈ (pre ++ (List.replicate n 35 ++ (s1 ++ (text ++ d :: List.replicate h (35 : UInt8))))).getLast?, isSpace x = false := by
+    intro x hx
+    have e : pre ++ (List.replicate n 35 ++ (s1 ++ (text ++ d :: List.replicate h (35 : UInt8))))
+        = (pre ++ (List.replicate n 35 ++ (s1 ++ text))) ++ (d :: List.replicate h 35) := by simp
+    rw [e, List.getLast?_append] at hx
+    cases h with
+    | zero =>
+      have hxd : x = d := by
+        simp at hx
+        first | exact hx.symm | exact hx
+      rw [hxd]
+      cases hsp : isSpace d with
+      | false => rfl
+      | true => have := hdh hsp; omega
+    | succ h =>
+      have hl35 : (d :: List.replicate (h + 1) (35 : UInt8)).getLast? = some 35 := by
+        rw [List.replicate_succ', ← List.cons_append, List.getLast?_append]; simp
+      rw [hl35] at hx
+      have hx35 : x = 35 := by
+        simp at hx
+        first | exact hx.symm | exact hx
+      rw [hx35]; decide
+  have htr : trimRightSpaceLength (pre ++ (List.replicate n 35 ++ (s1 ++ (text ++ d :: (List.replicate h 35 ++ trail)))))
+      = trail.length := by rw [hX]; exact trimRight_append_spaces _ trail htrail hXlast
+  have hlen : (pre ++ (List.replicate n 35 ++ (s1 ++ (text ++ d :: (List.replicate h 35 ++ trail))))).length
+      = pre.length + n + s1.length + text.length + 1 + h + trail.length := by simp; omega
+  -- assemble
+  have hP : pre ++ (List.replicate n 35 ++ (s1 ++ (text ++ d :: (List.replicate h 35 ++ trail))))
+      = (pre ++ (List.replicate n 35 ++ (s1 ++ text))) ++ d :: (List.replicate h 35 ++ trail) := by simp
+  have hPlen : (pre ++ (List.replicate n (35 : UInt8) ++ (s1 ++ text))).length = pre.length + n + s1.length + text.length := by
+    simp; omega
+  have hcore := atxContent_core (pre ++ (List.replicate n 35 ++ (s1 ++ text))) trail d h (pre.length + n + s1.length) hd35
+    (by rw [hPlen]; omega)
+  rw [hPlen, ← hP] at hcore
+  unfold atxOpen
+  simp only [hdrop0, hrun, hdropi, hl, hlen, htr]
+  have c1 : (n == 0 || decide (n > 6)) = false := by simp; omega
+  have c2 : ¬ (pre.length + n = pre.length + n + s1.length + text.length + 1 + h + trail.length) := by omega
+  have c3 : (s1.length == 0) = false := by simp; omega
+  have c4 : ¬ (pre.length + n + s1.length ≥ pre.length + n + s1.length + text.length + 1 + h + trail.length) := by omega
+  have c5 : pre.length + n + s1.length + text.length + 1 + h + trail.length - trail.length
+      = pre.length + n + s1.length + text.length + 1 + h := by omega
+  simp only [c1, Bool.false_eq_true, if_false, beq_iff_eq, c2, c3, c4, c5, hcore]
+  rfl
+
 end GM.Proof.LineRec
